@@ -811,7 +811,10 @@ func (r *ReflectionDescriber) HasProperty(name string) bool {
 func (r *ReflectionDescriber) Property(name string) interface{} {
 	// Properties set by property methods cannot be read
 	name = capitalizeFirst(name)
-	property := r.properties[name]
+	property, ok := r.properties[name]
+	if !ok {
+		return nil
+	}
 	return property.Interface()
 }
 
